@@ -907,7 +907,11 @@ func runScenario(sc *scenario, b run.Batch, r *ev.Result) (fatal bool) {
 		err := env.WriteEnergy(energyFile(sc.Rows, sc.Groups-1, glow.GenesisTime, sc.Seed))
 		ticked := err == nil && waitTicks(client.VerifTicks()+2)
 		if rerr := x.relay.ReopenPort(); rerr != nil {
-			return inconc("relay port could not be bound again: %v", rerr)
+			// the closed port number was taken by some other process of the host (it lies in the
+			// ephemeral range): this scenario cannot go on, which says nothing about the client
+			r.Count("scenarios_abandoned_port_taken_by_another_process", 1)
+			x.trace("relay port could not be bound again: %v", rerr)
+			return false
 		}
 		if err != nil || !ticked {
 			return inconc("udp outage: energy file %v, loop ticked %v", err, ticked)
